@@ -24,7 +24,7 @@ LEMMA StepInd == Ind /\ [Next]_vars => Ind'
   <2>1. UNCHANGED <<mancfg, lastTable, active, wkVal>>
     BY <1>1 DEF RegChange, bevars, wkvars
   <2>2. kv' \in Manual
-    BY <1>1 DEF RegChange, InstChange, NodeChange, KVChange, KVTouch, Ind, TypeInv
+    BY <1>1 DEF RegChange, InstChange, NodeChange, KVChange, KVTouch, HealthTouch, Ind, TypeInv
   <2> QED
     BY <2>1, <2>2 DEF Ind, TypeInv, LastGood
 <1>2. CASE WsIssue
